@@ -152,8 +152,11 @@ impl<'a> Lexer<'a> {
         let mut pos = self.skip_whitespace(self.pos)?;
         while self.buf.get(pos) == Some(&b'%') {
             pos += 1;
-            if let Some(off) = self.buf[pos..].iter().position(|&b| b == b'\n') {
-                pos += off+1;
+            match self.buf[pos..].iter().position(|&b| b == b'\n') {
+                Some(off) => pos += off+1,
+                // a comment without a line end runs to the end of the buffer (stepping over it one
+                // byte at a time searched the rest of the buffer again for every '%')
+                None => pos = self.buf.len()
             }
             
             // Move away from eventual whitespace
